@@ -34,14 +34,16 @@ def parse_request(message):
                 target = local(sub[0].tag) if local(sub[0].tag) != 'url' else (sub[0].text or '')
     return mid, local(op.tag), target
 
-def session_class(server, caps=None):
-    """A Session subclass constructed like the real transports: cls(device_handler)."""
+def session_class(server, caps=None, connect_hook=None):
+    """A Session subclass constructed like the real transports: cls(device_handler).
+    `connect_hook(session, args, kwds)`, when given, runs inside `connect()` and may raise (a refused connection)."""
     from ncclient.transport.session import Session
     from ncclient.transport.errors import TransportError
     from ncclient.capabilities import Capabilities
 
     class FakeRPCSession(Session):
         transport = None                      # connect_ssh looks at session.transport on failure
+        _socket = None                        # connect_tls / connect_uds look at session._socket on failure
         def __init__(self, device_handler):
             Session.__init__(self, Capabilities(device_handler.get_capabilities()))
             self._device_handler = device_handler
@@ -52,6 +54,8 @@ def session_class(server, caps=None):
             self._connected = True
         def connect(self, *args, **kwds):     # the transports' connect(): nothing to do
             self.connect_args = (args, kwds)
+            if connect_hook is not None:
+                connect_hook(self, args, kwds)
         def run(self):                        # never started
             pass
         def send(self, message):
@@ -69,8 +73,8 @@ class patched_transports:
     """Rebind ncclient.transport.{SSHSession,TLSSession,UnixSocketSession} (the names manager.connect_*
     look up at call time) to the fake session class, so that the real connect_* functions run."""
     NAMES = ('SSHSession', 'TLSSession', 'UnixSocketSession')
-    def __init__(self, server, caps=None):
-        self.cls = session_class(server, caps)
+    def __init__(self, server, caps=None, connect_hook=None):
+        self.cls = session_class(server, caps, connect_hook)
     def __enter__(self):
         import ncclient.transport as T
         self.saved = {n: getattr(T, n) for n in self.NAMES}
